@@ -1405,7 +1405,11 @@ func (c *c11) caseConn(tamper string, wrongKey bool) {
 				budget = c.rng.Intn(n + 100)
 			}
 			p.budget = budget
-			wn, werr := w.Write(msg)
+			var wn int
+			var werr error
+			if guard(func() { wn, werr = w.Write(msg) }) {
+				werr = errors.New("verif: panic in Conn.Write")
+			}
 			p.budget = -1
 			var chunks []string
 			for o := 0; o < n || o == 0; o += 65535 {
@@ -1432,7 +1436,11 @@ func (c *c11) caseConn(tamper string, wrongKey bool) {
 			rerr := error(nil)
 			for len(got) < n {
 				buf := make([]byte, []int{1, 7, 4096, 70000}[c.rng.Intn(4)])
-				m, err := r.Read(buf)
+				var m int
+				var err error
+				if guard(func() { m, err = r.Read(buf) }) {
+					err = errors.New("verif: panic in Conn.Read")
+				}
 				got = append(got, buf[:m]...)
 				if err != nil {
 					rerr = err
@@ -1441,7 +1449,9 @@ func (c *c11) caseConn(tamper string, wrongKey bool) {
 			}
 			if n == 0 {
 				buf := make([]byte, 8)
-				_, rerr = r.Read(buf)
+				if guard(func() { _, rerr = r.Read(buf) }) {
+					rerr = errors.New("verif: panic in Conn.Read")
+				}
 			}
 			same := 0
 			if string(got) == string(msg) {
